@@ -280,6 +280,30 @@ def normalize_tree(tree: ast.AST) -> ast.AST:
             new = ast.Assign(targets=[ast.Name(id=a, ctx=ast.Store())], value=ast.Call(func=ast.Name(id=kind, ctx=ast.Load()), args=[ast.Name(id=a, ctx=ast.Load()), copy.deepcopy(b)], keywords=[]))
             return ast.copy_location(new, node)
     tree = Clamp().visit(tree)
+
+    # `yield from (a, *b, c)` over a tuple / list display is `yield a; yield from b; yield c`
+    def split_display(body):
+        out = []
+        for st in body:
+            for fld in ("body", "orelse", "finalbody"):
+                sub = getattr(st, fld, None)
+                if isinstance(sub, list) and sub and isinstance(sub[0], ast.stmt):
+                    setattr(st, fld, split_display(sub))
+            for hnd in getattr(st, "handlers", []) or []:
+                hnd.body = split_display(hnd.body)
+            if isinstance(st, ast.Expr) and isinstance(st.value, ast.YieldFrom) and isinstance(st.value.value, (ast.Tuple, ast.List)) and st.value.value.elts:
+                for e in st.value.value.elts:
+                    if isinstance(e, ast.Starred):
+                        new = ast.Expr(value=ast.YieldFrom(value=e.value))
+                    else:
+                        new = ast.Expr(value=ast.Yield(value=e))
+                    out.append(ast.copy_location(new, st))
+                    ast.copy_location(new.value, st)
+                continue
+            out.append(st)
+        return out
+    for fn in [n for n in ast.walk(tree) if isinstance(n, (ast.FunctionDef, ast.AsyncFunctionDef))]:
+        fn.body = split_display(fn.body)
     if os.environ.get("SA_COPYPROP") == "1":  # experimental, off: too many rules are written against the temporaries of the pinned source
         _copy_propagate(tree)
     ast.fix_missing_locations(tree)
